@@ -254,7 +254,7 @@ func genSDK(t *rapid.T) SDKCase {
 	}
 	for _, s := range srcs {
 		s.N = draw("n")
-		s.Raw = strconv.FormatInt(s.N, 10)
+		s.Raw = spellInt(t, s.N)
 		bads := badInts
 		if sizes {
 			bads = append(append([]envText{}, badInts...), maxIntText)
@@ -274,6 +274,17 @@ func genSDK(t *rapid.T) SDKCase {
 		c.Opt.Raw, c.Opt.Kind = "", ""
 	}
 	return c
+}
+
+// spellInt draws a decimal spelling of n for an environment variable: plain,
+// or with leading zeros ("0512" is the decimal integer 512 for every integer
+// setting; it is not octal and not unparsable).
+func spellInt(t *rapid.T, n int64) string {
+	pad := rapid.SampledFrom([]int{0, 0, 0, 1, 2, 5}).Draw(t, "leading_zeros")
+	if n < 0 {
+		return strconv.FormatInt(n, 10)
+	}
+	return strings.Repeat("0", pad) + strconv.FormatInt(n, 10)
 }
 
 // ---------------------------------------------------------------------
@@ -655,6 +666,8 @@ func runSDK(c SDKCase) ([]vk.Violation, vk.Info) {
 		if s.State == invalid {
 			info.Class("env_text/" + strconv.Quote(s.Raw))
 		}
+		info.ClassIf(s.State == valid && len(s.Raw) > 1 && s.Raw[0] == '0', "env_number_spelling/leading_zeros")
+		info.ClassIf(s.State == valid && len(s.Raw) > 1 && s.Raw[0] == '0', "env_number_spelling/leading_zeros/"+c.Comp+"/"+c.Setting)
 	}
 	if c.Opt.State == invalid {
 		info.Class("bad_option/" + strconv.FormatInt(c.Opt.N, 10))
